@@ -278,6 +278,13 @@ class VFCol(V):
       other = ex.need_not_none(other, node, 'compared value')
     if isinstance(op, ast.Eq) and isinstance(other, VInt):
       return self._mask(ex, lambda v: v == other.t)
+    # period / group labels are integers: ordering comparisons are those of
+    # the labels themselves
+    cmp = {ast.NotEq: lambda v: v != other.t, ast.LtE: lambda v: v <= other.t,
+           ast.Lt: lambda v: v < other.t, ast.GtE: lambda v: v >= other.t,
+           ast.Gt: lambda v: v > other.t}.get(type(op))
+    if cmp is not None and isinstance(other, VInt):
+      return self._mask(ex, cmp)
     ex.unsupported(node, 'comparison on a frame column')
 
   def total(self):
@@ -370,3 +377,21 @@ class VFLabels(V):
 
   def flatten(self):
     return [self.t]
+
+
+def same_term(a, b, names):
+  """a == b, stated argument-wise when both are applications of the same
+  ledger function among `names` (equal arguments give equal results); maps
+  and row sets are compared element-wise, which keeps the obligation free of
+  lambda equalities.  Implies a == b."""
+  if (z3.is_app(a) and z3.is_app(b) and a.decl().eq(b.decl())
+      and a.decl().name() in names and a.num_args() == b.num_args()):
+    parts = []
+    for x, y in zip(a.children(), b.children()):
+      if isinstance(x.sort(), z3.ArraySortRef):
+        r = z3.Int('r!same')
+        parts.append(z3.ForAll([r], x[r] == y[r]))
+      else:
+        parts.append(same_term(x, y, names))
+    return z3.And(parts)
+  return a == b
